@@ -523,13 +523,20 @@ class SigmaCorrelationRule(SigmaRuleBase, ProcessingItemTrackingMixin):
     ) -> Self:
         kwargs, errors = super().from_dict_common_params(rule, collect_errors, source)
         correlation_rule = rule.get("correlation", dict())
+        if not isinstance(correlation_rule, dict):
+            errors.append(
+                sigma_exceptions.SigmaCorrelationRuleError(
+                    "Sigma correlation definition must be a map", source=source
+                )
+            )
+            correlation_rule = dict()
 
         # Correlation type
         correlation_type = correlation_rule.get("type")
         if correlation_type is not None:
             try:
                 correlation_type = SigmaCorrelationType[correlation_type.upper()]
-            except KeyError:
+            except (KeyError, AttributeError):  # unknown type or not a string
                 errors.append(
                     sigma_exceptions.SigmaCorrelationTypeError(
                         f"'{ correlation_type }' is no valid Sigma correlation type", source=source
